@@ -225,6 +225,7 @@ type classInfo struct {
 }
 
 const ownLock = "own"
+const unsharedLock = "unshared"
 
 func need(classes map[string]string, acc, field string) (kind, lock, mode string) {
 	c, ok := classes[field]
@@ -250,8 +251,11 @@ func need(classes map[string]string, acc, field string) (kind, lock, mode string
 		}
 		return "never", "", ""
 	case c == "immutable":
-		if acc == "r" {
+		switch acc {
+		case "r":
 			return "free", "", ""
+		case "w":
+			return "need", unsharedLock, "W"
 		}
 		return "never", "", ""
 	case c == "atomic":
@@ -260,6 +264,8 @@ func need(classes map[string]string, acc, field string) (kind, lock, mode string
 			return "free", "", ""
 		case "r":
 			return "need", ownLock, "R"
+		case "w":
+			return "need", unsharedLock, "W"
 		}
 		return "never", "", ""
 	}
@@ -396,6 +402,12 @@ func (a *analyzer) inferClasses() map[string]string {
 				}
 			}
 		}
+	}
+	// a field counts as written only if a plain store can reach an object that is not being
+	// constructed: stores on formals are followed up the call graph, stores on new objects dropped
+	eff := a.effectiveWrites()
+	for f, ac := range accs {
+		ac["w"] = eff[f]
 	}
 	classes := map[string]string{}
 	for f, ac := range accs {
@@ -962,4 +974,68 @@ func (a *analyzer) wrappers() {
 			}
 		}
 	}
+}
+
+// effectiveWrites: fields stored to on an object that is neither new nor (transitively) a formal
+// bound only to new objects; entry points' formals count as shared.
+func (a *analyzer) effectiveWrites() map[string]bool {
+	type ow struct{ obj, field string }
+	wr := map[string]map[ow]bool{} // summary -> (formal, field) stores that depend on the caller
+	res := map[string]bool{}
+	isFormal := func(s *Summary, o string) bool {
+		for _, f := range s.Formals {
+			if f == o {
+				return true
+			}
+		}
+		return false
+	}
+	for changed := true; changed; {
+		changed = false
+		for _, nm := range a.order {
+			s := a.byName[nm]
+			if wr[nm] == nil {
+				wr[nm] = map[ow]bool{}
+			}
+			note := func(obj, field string) {
+				if obj == "" || isFresh(obj) {
+					return
+				}
+				if isFormal(s, obj) && !s.API {
+					if !wr[nm][ow{obj, field}] {
+						wr[nm][ow{obj, field}] = true
+						changed = true
+					}
+					return
+				}
+				if !res[field] {
+					res[field] = true
+					changed = true
+				}
+			}
+			for _, p := range s.Paths {
+				for _, it := range p {
+					switch it.Kind {
+					case "acc":
+						if it.Acc == "w" {
+							note(it.Obj, it.Field)
+						}
+					case "call":
+						sg := map[string]string{}
+						for _, q := range it.Sigma {
+							if _, dup := sg[q[0]]; !dup {
+								sg[q[0]] = q[1]
+							}
+						}
+						for k := range wr[it.Callee] {
+							if act, ok := sg[k.obj]; ok {
+								note(act, k.field)
+							}
+						}
+					}
+				}
+			}
+		}
+	}
+	return res
 }
